@@ -106,46 +106,66 @@ func (p *H264Payloader) Payload(mtu uint16, payload []byte) [][]byte { //nolint:
 			return
 		case naluType == spsNALUType:
 			if !p.DisableStapA {
+				// An SPS opens a new pair: whatever is still held back goes out first.
+				payloads = p.flushParameterSets(mtu, payloads)
 				p.spsNalu = append([]byte{}, nalu...)
 
 				return
 			}
 		case naluType == ppsNALUType:
 			if !p.DisableStapA {
+				if p.ppsNalu != nil {
+					// A PPS is already held back: it goes out (with its SPS) before this one takes its place.
+					payloads = p.flushParameterSets(mtu, payloads)
+				}
 				p.ppsNalu = append([]byte{}, nalu...)
 
 				return
 			}
-		case !p.DisableStapA && p.spsNalu != nil && p.ppsNalu != nil:
-			// Pack current NALU with SPS and PPS as STAP-A
-			spsLen := make([]byte, 2)
-			binary.BigEndian.PutUint16(spsLen, uint16(len(p.spsNalu))) // nolint: gosec // G115
-
-			ppsLen := make([]byte, 2)
-			binary.BigEndian.PutUint16(ppsLen, uint16(len(p.ppsNalu))) // nolint: gosec // G115
-
-			stapANalu := []byte{outputStapAHeader}
-			stapANalu = append(stapANalu, spsLen...)
-			stapANalu = append(stapANalu, p.spsNalu...)
-			stapANalu = append(stapANalu, ppsLen...)
-			stapANalu = append(stapANalu, p.ppsNalu...)
-			if len(stapANalu) <= int(mtu) {
-				out := make([]byte, len(stapANalu))
-				copy(out, stapANalu)
-				payloads = append(payloads, out)
-			} else {
-				// The parameter sets do not fit into one STAP-A: send them on their own
-				// instead of dropping them.
-				payloads = packetizeH264Nalu(mtu, p.spsNalu, payloads)
-				payloads = packetizeH264Nalu(mtu, p.ppsNalu, payloads)
-			}
-
-			p.spsNalu = nil
-			p.ppsNalu = nil
+		case !p.DisableStapA:
+			payloads = p.flushParameterSets(mtu, payloads)
 		}
 
 		payloads = packetizeH264Nalu(mtu, nalu, payloads)
 	})
+
+	return payloads
+}
+
+// flushParameterSets appends the parameter sets that are held back to payloads, in the order they
+// were given: an SPS and a PPS as one STAP-A (on their own if that exceeds the MTU), a parameter set
+// without its counterpart on its own.
+func (p *H264Payloader) flushParameterSets(mtu uint16, payloads [][]byte) [][]byte {
+	if p.spsNalu != nil && p.ppsNalu != nil {
+		// Pack SPS and PPS as STAP-A
+		spsLen := make([]byte, 2)
+		binary.BigEndian.PutUint16(spsLen, uint16(len(p.spsNalu))) // nolint: gosec // G115
+
+		ppsLen := make([]byte, 2)
+		binary.BigEndian.PutUint16(ppsLen, uint16(len(p.ppsNalu))) // nolint: gosec // G115
+
+		stapANalu := []byte{outputStapAHeader}
+		stapANalu = append(stapANalu, spsLen...)
+		stapANalu = append(stapANalu, p.spsNalu...)
+		stapANalu = append(stapANalu, ppsLen...)
+		stapANalu = append(stapANalu, p.ppsNalu...)
+		if len(stapANalu) <= int(mtu) {
+			out := make([]byte, len(stapANalu))
+			copy(out, stapANalu)
+			p.spsNalu, p.ppsNalu = nil, nil
+
+			return append(payloads, out)
+		}
+	}
+	// No pair, or the pair does not fit into one STAP-A: send what is held on its own
+	// instead of dropping it.
+	if p.spsNalu != nil {
+		payloads = packetizeH264Nalu(mtu, p.spsNalu, payloads)
+	}
+	if p.ppsNalu != nil {
+		payloads = packetizeH264Nalu(mtu, p.ppsNalu, payloads)
+	}
+	p.spsNalu, p.ppsNalu = nil, nil
 
 	return payloads
 }
